@@ -65,12 +65,12 @@ def run_wavelet(cfg) -> Outcome:
     want = torch.as_tensor(np.moveaxis(np.concatenate(parts, -1), -1, min(dims_norm)))
     viol = None
     fam = cfg['wavelet']
-    if y.shape != want.shape or float((y - want).abs().max()) > 1e-8 * max(1.0, float(want.abs().max())):
+    if y.shape != want.shape or float((y - want).abs().nan_to_num(nan=float('inf')).max()) > 1e-8 * max(1.0, float(want.abs().max())):
         viol = {'signature': 'action:wavelet:pywt', 'what': f'{cfg}: coefficients differ from pywt.wavedecn(mode=zero): shapes {list(y.shape)} vs {list(want.shape)}, '
                 f'max dev {float((y - want).abs().max()) if y.shape == want.shape else float("nan"):.2e}'}
     elif fam in zoo_kernels.WAVELETS_ORTHO:
         (back,) = op.adjoint(y)
-        if float((back - x).abs().max()) > 1e-8:
+        if float((back - x).abs().nan_to_num(nan=float('inf')).max()) > 1e-8:
             viol = {'signature': 'action:wavelet:isometry', 'what': f'{cfg}: W^H W x != x for the orthogonal wavelet {fam} (dev {float((back - x).abs().max()):.2e})'}
     return Outcome(key={k: v for k, v in cfg.items() if k != 'seed'}, viol=viol, branches=[f'wavelet:{fam}:{nd}D:level{cfg["level"]}'], sample=cfg)
 
